@@ -157,8 +157,23 @@ func c03UnconditionalInLoop(fn *ssa.Function, call ssa.CallInstruction) bool {
 		}, map[ssa.Value]bool{}, 0)
 	}
 	if next == nil {
-		// index-based range over a slice: element loaded via IndexAddr with phi index; use the loop header = block with the phi
-		return true
+		// index-based range over a slice: the element is loaded through an IndexAddr once per iteration; that load is the anchor
+		var anchor ssa.Instruction
+		for _, a := range call.Common().Args {
+			traceBack(a, func(v ssa.Value) bool {
+				if u, ok := v.(*ssa.UnOp); ok {
+					if _, ok := u.X.(*ssa.IndexAddr); ok {
+						anchor = u
+						return true
+					}
+				}
+				return false
+			}, map[ssa.Value]bool{}, 0)
+		}
+		if anchor == nil {
+			return false
+		}
+		return ReachAfter(anchor, func(in ssa.Instruction) bool { return in == anchor }, NewAvoid().AddInstr(call)) == nil
 	}
 	// after `next` (in the body), reaching `next` again must pass the call
 	return ReachAfter(next, func(in ssa.Instruction) bool { return in == ssa.Instruction(next) }, NewAvoid().AddInstr(call)) == nil
